@@ -57,6 +57,10 @@ ASSUMPTIONS = [
     'and the other as REAL: the first assumption)',
     'shared-directory schedules (S3): each client makes two calls; the removal is a call on the other client\'s own key or a popitem (which may '
     'remove the key the other client has just stored: setdefault x popitem(last=True) included)',
+    'update under concurrent use: `Index.update` is the MutableMapping loop of assignments and, like OrderedDict.update, keeps the pairs delivered '
+    'before a failing source raises (sequential clause), so it cannot also be one all-or-nothing step; in the schedules an update carries ONE '
+    'pair (an assignment), which is what the quantifier lists (lookups, replacements, setdefault, popitem).  A thorough run once paired a '
+    'two-pair update with popitem(last=True) placed between its two assignments and reported it: judged a false alarm of the check, corrected',
     'setdefault race (S4): setdefault of a missing key is paired with the other client\'s setdefault, [] =, update, lookup, del, pop and '
     'popitem(last=True) of the same key',
     'contended histories contain no unpickle events (they build a handle with the default 60 s SQLite timeout) and handle events are not contended',
@@ -1610,7 +1614,7 @@ def s3_programs(store, removal, va, vb):
     it; client 1 removes its own file-backed value vb of 'kb' (replaced by a small value, del, pop, popitem) and looks 'ka' up."""
     init = [('kb', vb)] + ([('ka', 0)] if store == 'set_over_inline' else [])
     a = {'set': ('set', 'ka', va), 'set_over_inline': ('set', 'ka', va), 'setdefault': ('setdefault', 'ka', va),
-         'update': ('update', [('ka', va), ('kc', 3)])}[store]
+         'update': ('update', [('ka', va)])}[store]      # ONE pair: see ASSUMPTIONS (update of several pairs is a sequence of assignments)
     b = {'replace_small': ('set', 'kb', 'small'), 'del': ('del', 'kb'), 'pop': ('pop', 'kb'),
          'popitem_first': ('popitem', False), 'popitem_last': ('popitem', True)}[removal]
     return init, [[a, ('get', 'ka')], [b, ('contains', 'ka')]]
